@@ -1,6 +1,7 @@
 package rules
 
 import (
+	"go/types"
 	"go/token"
 	"strings"
 
@@ -188,7 +189,32 @@ func checkC13(c *Ctx) {
 	ws := c.Writers(c.LiveReach(), "Set", "LastExternalBlockHeightKey")
 	for _, f := range sortedKeys(ws) {
 		if c.isGenesisImport(f) {
-			r.Ok("C13.timeout-guard", "height-writer:"+fname(f), p.Pos(f.Pos()), "genesis import")
+			// the imported height is the exported external height, not the hub height recorded next to it
+			okH, nH := true, 0
+			for _, e := range ws[f] {
+				site, ok := e.At.(ssa.CallInstruction)
+				if !ok {
+					continue
+				}
+				for _, a := range site.Common().Args {
+					if bt, ok := a.Type().Underlying().(*types.Basic); !ok || bt.Kind() != types.Uint64 {
+						continue
+					}
+					nH++
+					ext, other := false, false
+					for _, fl := range p.Leaves(a, ana.PVOpt{}).Fields() {
+						if strings.HasSuffix(fl, ".ExternalHeight") {
+							ext = true
+						} else {
+							other = true
+						}
+					}
+					if !ext || other {
+						okH = false
+					}
+				}
+			}
+			r.Check(okH && nH > 0, "C13.timeout-guard", "height-writer:"+fname(f), p.Pos(f.Pos()), "genesis import restores the exported external height", "the genesis import does not restore the observed external height from the exported ExternalHeight: after a restart timeouts are compared with a height the external chain never reported")
 			continue
 		}
 		callsProcess := false
@@ -233,6 +259,8 @@ func checkC13(c *Ctx) {
 	}
 	// exact delete
 	c.checkBatchExecutedAs("C13.exact-delete", reach)
+	// ... and it is removed on every path that pays out (C04.batch-executed)
+	c.include("exact-delete", "C04", rulesIn("C04.batch-executed"))
 }
 
 func (c *Ctx) checkBatchExecutedAs(rule string, reach map[*ssa.Function]bool) {
